@@ -109,7 +109,9 @@ class LedgerDomain(ParamsMixin, Domain):
                              # hard-restart merge: the best-so-far objective before a run, the objective the run returned, "a restarted run has happened"
                              'objprev': 'val', 'objnew': 'val', 'ran': 'bool',
                              # C19 (N5): the caller left growing.ndirs_initial at (or above) npt - 1, so the initial set is complete and the run never grows
-                             'fullinit': 'bool'}
+                             'fullinit': 'bool',
+                             # C04 (ii): the geometry step that is about to run targets the incumbent itself and re-evaluates the incumbent's own (clipped) point
+                             'reeval': 'bool'}
         fs = self.field_shapes
         fs[('Controller', 'nf')] = 'int'
         fs[('Controller', 'nx')] = 'int'
